@@ -92,14 +92,17 @@ uint32_t COTmrGetTicks(CO_TMR *tmr, uint16_t time, uint32_t unit)
 {
     uint32_t ticks = 0u;
     uint32_t freq  = tmr->Freq;
+    uint64_t exact;
 
     if (freq == 0u) {
         ticks = 0u;
     } else {
-        if (freq <= unit) {
-            ticks = (uint32_t)time / (unit / freq);
+        /* exact conversion, rounded down; saturates instead of wrapping */
+        exact = ((uint64_t)time * (uint64_t)freq) / (uint64_t)unit;
+        if (exact > (uint64_t)0xFFFFFFFFu) {
+            ticks = 0xFFFFFFFFu;
         } else {
-            ticks = (uint32_t)time * (freq / unit);
+            ticks = (uint32_t)exact;
         }
     }
     return (ticks);
@@ -114,7 +117,8 @@ uint16_t COTmrGetMinTime(CO_TMR *tmr, uint32_t unit)
         time = 0u;
     } else {
         if (freq <= unit) {
-            time = (uint16_t)(unit / freq);
+            /* smallest time which results in at least one tick */
+            time = (uint16_t)((unit + freq - 1u) / freq);
         }
     }
     return (time);
